@@ -142,12 +142,16 @@ type splitReader struct {
 	segs  []int
 	k     int
 	pos   int
+	delay time.Duration // virtual time each read takes (bubble only)
 	zero  bool  // deliver a (0, nil) read before each segment
 	errAt int   // fail at this position (<0 never)
 	z     bool
 }
 
 func (s *splitReader) Read(p []byte) (int, error) {
+	if s.delay > 0 {
+		time.Sleep(s.delay)
+	}
 	if s.zero && !s.z {
 		s.z = true
 		return 0, nil
@@ -337,6 +341,7 @@ type seedServer struct {
 	truth    []byte // of the file being served
 	requests []string
 	chunk    int
+	delay    time.Duration
 }
 
 func (s *seedServer) RoundTrip(req *http.Request) (*http.Response, error) {
@@ -371,7 +376,7 @@ func (s *seedServer) RoundTrip(req *http.Request) (*http.Response, error) {
 			h.Set(k, v)
 		}
 		return &http.Response{StatusCode: code, Status: fmt.Sprintf("%d scripted", code), Proto: "HTTP/1.1", ProtoMajor: 1, ProtoMinor: 1, Header: h,
-			Body: io.NopCloser(&splitReader{data: body, segs: []int{s.chunk, s.chunk, s.chunk, s.chunk, s.chunk, s.chunk}, errAt: -1}), Request: req, ContentLength: cl}
+			Body: io.NopCloser(&splitReader{data: body, segs: []int{s.chunk, s.chunk, s.chunk, s.chunk, s.chunk, s.chunk}, errAt: -1, delay: s.delay}), Request: req, ContentLength: cl}
 	}
 	if !hasRange || a > b {
 		return mk(416, nil, nil, 0), nil
@@ -547,6 +552,56 @@ func (h *c14) endToEnd(t *testing.T, mode string, hoffman bool, piece uint32, pr
 	})
 }
 
+// bigFetches: ten successive fetches into 4 MiB pieces from an honest server;
+// the measured rate grows from fetch to fetch and with it the cap on the fetch
+// length.  After each fetch every reservation must be released.
+func (h *c14) bigFetches(t *testing.T) {
+	synctest.Test(t, func(t *testing.T) {
+		peer.VerifReset()
+		config.DefaultUseWebseeds = true
+		config.PrefetchRate = 768 * 1024
+		w := newWriterWorld("gbig")
+		tor := w.t
+		tor.useWebseeds = true
+		// each read of the body takes 70 ms of virtual time, so that the rate
+		// estimator decays and the cap is not a round number
+		srv := &seedServer{mode: "honoured", truth: w.truth, chunk: 200000, delay: 70 * time.Millisecond}
+		httpclient.VerifInstall("", "", srv)
+		ws := webseed.New("http://seed.example/f", true)
+		tor.webseeds = []webseed.Webseed{ws}
+		for round := 0; round < 10; round++ {
+			h.res.Add("evaluations", 1)
+			piece := uint32(round / 5)
+			maybeWebseed(w.ctx, tor, piece, false)
+			synctest.Wait()
+			time.Sleep(20 * time.Second)
+			synctest.Wait()
+			for {
+				select {
+				case e := <-tor.Event:
+					if d, ok := e.(peer.TorData); ok {
+						d.Complete = false
+						e = d
+					}
+					handleEvent(w.ctx, tor, e)
+					continue
+				default:
+				}
+				break
+			}
+			for c, v := range tor.inFlight {
+				if v != 0 {
+					h.viol("C14/reservation-not-released", "block %d is still marked in flight (%d) after fetch %d into a 4 MiB piece ended (web-seed rate %.0f B/s, last request %q)", c, v, round+1, ws.Rate(), srv.requests[len(srv.requests)-1])
+					tor.Pieces.Del()
+					return
+				}
+			}
+			h.nontriv[fmt.Sprintf("big/%d/%d", round, int(ws.Rate())/100000)] = true
+		}
+		tor.Pieces.Del()
+	})
+}
+
 func TestVerifC14(t *testing.T) {
 	if os.Getenv("VERIF_OUT") == "" {
 		t.Skip("verif harness: run through /verif/run")
@@ -688,6 +743,11 @@ func TestVerifC14(t *testing.T) {
 				}
 			}
 		}
+	}
+	// holes larger than 1 MiB: the length of a fetch is capped according to the
+	// web seed's measured rate; successive fetches on 4 MiB pieces
+	if mine() {
+		h.bigFetches(t)
 	}
 	res.Sample(map[string]any{"server": "body-long", "piece": 2, "blocks present": []int{0}})
 }
